@@ -267,13 +267,10 @@ func (s *Service) pruneOnHeaderDelete(ctx context.Context, height uint64) error 
 		s.checkpointMu.Unlock()
 		return err
 	}
-	if _, ok := s.checkpoint.FailedHeaders[height]; ok {
-		log.Warnw("Deleted header for a height previously failed to be pruned", "height", height)
-		log.Warn("Stored data for the height may never be pruned unless full resync!")
-		// TODO(@Wondertan): Do we wanna give here an additional retry before removing?
-		delete(s.checkpoint.FailedHeaders, height)
-	}
-	if height <= s.checkpoint.LastPrunedHeight {
+	// data of a height that previously failed to be pruned is not gone yet: it has to be pruned
+	// now, while its header is still available, otherwise it would never be pruned
+	_, failedBefore := s.checkpoint.FailedHeaders[height]
+	if height <= s.checkpoint.LastPrunedHeight && !failedBefore {
 		s.checkpointMu.Unlock()
 		return nil
 	}
@@ -292,6 +289,7 @@ func (s *Service) pruneOnHeaderDelete(ctx context.Context, height uint64) error 
 
 	s.checkpointMu.Lock()
 	defer s.checkpointMu.Unlock()
+	delete(s.checkpoint.FailedHeaders, height)
 	if height <= s.checkpoint.LastPrunedHeight {
 		return nil
 	}
